@@ -674,13 +674,13 @@ fn deviation_cases(item: &Item, ext: &Ext, feat: u8, comp: Comp, pairs: u8, type
     }
     if pairs > 0 {
         // 2 deviations: pairs of fields of the same frame region (same site prefix) or close to each other.
-        // level 1: reduced value alphabet, same region or adjacent, distance <= 6; level 2: full alphabet, same region at any distance or any two fields <= 12 apart
+        // level 1: reduced value alphabet, same region or adjacent, distance <= 6; level 2: full alphabet, every pair of fields of the frame
         let region = |f: &Field| f.site.split('.').next().unwrap_or("").to_string();
         let small = |label: &str| pairs >= 2 || matches!(label, "0" | "-1" | "+1" | "i32max" | "0xffff" | "flip" | "typeid");
         let maxdist = 6;
         for (i, fa) in w.fields.iter().enumerate() {
             for (j, fb) in w.fields.iter().enumerate().skip(i + 1) {
-                let near = if pairs >= 2 { region(fa) == region(fb) || j - i <= 12 } else { (region(fa) == region(fb) || j == i + 1) && j - i <= maxdist };
+                let near = if pairs >= 2 { true } else { (region(fa) == region(fb) || j == i + 1) && j - i <= maxdist };
                 if !near {
                     continue;
                 }
@@ -703,7 +703,7 @@ fn deviation_cases(item: &Item, ext: &Ext, feat: u8, comp: Comp, pairs: u8, type
                 let mut b = w.buf.clone();
                 frames::write_field(&mut b, f, v);
                 let after = f.off + f.width as usize;
-                let mut cuts: BTreeSet<usize> = (after..(after + 6).min(b.len())).collect();
+                let mut cuts: BTreeSet<usize> = if pairs >= 2 && b.len() <= 4096 { (after..b.len()).collect() } else { (after..(after + 6).min(b.len())).collect() };
                 for k in 1..4 {
                     if b.len() > after + k {
                         cuts.insert(b.len() - k);
@@ -883,16 +883,20 @@ fn badclass_cases(out: &mut Vec<Case>) {
 }
 
 /// every hole of every class-string template x every string of length 0..=maxlen over CLASS_SYMBOLS (+ invalid UTF-8)
-fn classfuzz_cases(template: usize, maxlen: usize, out: &mut Vec<Case>) {
+fn classfuzz_cases(template: usize, maxlen: usize, first: Option<usize>, out: &mut Vec<Case>) {
     let (name, tpl) = frames::class_templates()[template];
     let (pre, post) = tpl.split_once("{}").unwrap();
     let syms = frames::CLASS_SYMBOLS;
-    let mut subs: Vec<Vec<u8>> = vec![vec![]];
+    // `first`: only the strings that start with that symbol (the empty string and the invalid-UTF-8 strings go with symbol 0)
+    let mut subs: Vec<Vec<u8>> = if first.unwrap_or(0) == 0 { vec![vec![]] } else { vec![] };
     let mut layer: Vec<Vec<u8>> = vec![vec![]];
-    for _ in 0..maxlen {
+    for pos in 0..maxlen {
         let mut next = Vec::with_capacity(layer.len() * syms.len());
         for s in &layer {
-            for y in syms {
+            for (yi, y) in syms.iter().enumerate() {
+                if pos == 0 && first.is_some_and(|f| f != yi) {
+                    continue;
+                }
                 let mut t = s.clone();
                 t.extend_from_slice(y.as_bytes());
                 next.push(t);
@@ -902,7 +906,8 @@ fn classfuzz_cases(template: usize, maxlen: usize, out: &mut Vec<Case>) {
         layer = next;
     }
     // invalid UTF-8 inside the [string]: lone continuation / lead bytes, truncated and overlong sequences, at both parities
-    for bad in [&[0xffu8][..], &[0xc3], &[0x80], &[b'a', 0xc3], &[0xe4, 0xb8], &[b'a', 0xe4, 0xb8], &[0xf0, 0x9d, 0x9f], &[0xc0, 0xaf], &[b'6', 0xed, 0xa0, 0x80]] {
+    let bads: &[&[u8]] = if first.unwrap_or(0) == 0 { &[&[0xffu8], &[0xc3], &[0x80], &[b'a', 0xc3], &[0xe4, 0xb8], &[b'a', 0xe4, 0xb8], &[0xf0, 0x9d, 0x9f], &[0xc0, 0xaf], &[b'6', 0xed, 0xa0, 0x80]] } else { &[] };
+    for bad in bads.iter().copied().chain(std::iter::empty::<&[u8]>()) {
         subs.push(bad.to_vec());
     }
     for sub in subs {
@@ -1410,7 +1415,7 @@ fn main() {
         BadClass,
         Random(u64),
         Stream,
-        ClassFuzz(usize),
+        ClassFuzz(usize, Option<usize>),
         StreamHuge,
         CompRt(usize),
         VectorNest,
@@ -1445,11 +1450,17 @@ fn main() {
         units.insert(2, Unit::CompRt(k));
     }
     for t in 0..frames::class_templates().len() {
-        units.push(Unit::ClassFuzz(t));
+        if thorough {
+            for f in 0..frames::CLASS_SYMBOLS.len() {
+                units.push(Unit::ClassFuzz(t, Some(f)));
+            }
+        } else {
+            units.push(Unit::ClassFuzz(t, None));
+        }
     }
     units.push(Unit::Nest);
     units.push(Unit::BadClass);
-    let n_random = if thorough { 5_000_000 } else { 100_000 };
+    let n_random = if thorough { 20_000_000 } else { 100_000 };
     for k in 0..(n_random / 10_000) {
         units.push(Unit::Random(k as u64));
     }
@@ -1467,7 +1478,7 @@ fn main() {
             Unit::Stream => only == "stream",
             Unit::StreamHuge => only == "streamhuge",
             Unit::CompRt(_) => only == "comprt",
-            Unit::ClassFuzz(_) => only == "classfuzz",
+            Unit::ClassFuzz(..) => only == "classfuzz",
             Unit::VectorNest => only == "vectornest",
             Unit::TableSpec => only == "tablespec",
         });
@@ -1491,7 +1502,7 @@ fn main() {
             Unit::Stream => "stream",
             Unit::StreamHuge => "streamhuge",
             Unit::CompRt(_) => "comprt",
-            Unit::ClassFuzz(_) => "classfuzz",
+            Unit::ClassFuzz(..) => "classfuzz",
             Unit::VectorNest => "vectornest",
             Unit::TableSpec => "tablespec",
         };
@@ -1529,7 +1540,7 @@ fn main() {
                     deviation_cases(item, &exts_ref[0], 0x0f & !item.breaks_under, Comp::None, 0, true, None, &mut cases);
                 }
                 if thorough {
-                    deviation_cases(item, &exts_ref[7], feat, Comp::None, 0, false, None, &mut cases);
+                    deviation_cases(item, &exts_ref[7], feat, Comp::None, 2, false, None, &mut cases);
                 }
             }
             Unit::DevExt(i) => {
@@ -1571,7 +1582,7 @@ fn main() {
                 }
                 oref.r.note("stream_huge_frame_wall_ms", json!(t.elapsed().as_millis() as u64));
             }
-            Unit::ClassFuzz(t) => classfuzz_cases(t, if thorough { 5 } else { 4 }, &mut cases),
+            Unit::ClassFuzz(t, f) => classfuzz_cases(t, if thorough { 6 } else { 4 }, f, &mut cases),
             Unit::VectorNest => vector_nest_cases(&mut cases),
             Unit::TableSpec => table_spec_cases(thorough, &mut cases),
         }
@@ -1602,7 +1613,7 @@ fn main() {
     if unrep > 0 && r.args.extra_value("--only").is_none() {
         vcore::machinery_error(&format!("{unrep} fatal outcomes did not reproduce when the case was re-run alone"));
     }
-    r.set_rule("E-ENUM with deviation bounding. 0 deviations: corpus of well-formed frames of every response kind (ERROR all 19 codes with extras, READY, AUTHENTICATE, SUPPORTED, RESULT void/rows/set_keyspace/prepared/schema_change, EVENT all kinds, AUTH_CHALLENGE/SUCCESS; rows over a depth-2 type alphabet incl. class-string forms and vectors, every metadata flag combination, 0..2 rows, cached-metadata twin for no_metadata) x extension subsets x {none, LZ4, Snappy} x {matches, literal-only} x feature combinations (quick: 4; thorough: all 16), decoded through read_response_frame -> parse_response_body_extensions -> ResponseV2::deserialize (+ legacy Response for events) -> deserialize_metadata -> rows as raw cells, as Row/CqlValue and as every typed tuple of the target alphabet that passes type_check; decoded text must equal the text derived from the cqlref model. 1 deviation: every stream truncation, every body truncation with consistent header, every length/count/flag/id field x {0,1,-1,-2,+1,-1,0x7fff,0xffff,i32::MAX,i32::MIN, bit flips, all type ids / result kinds / opcodes / error codes}, header fields, every consistently shortened cell value (each prefix of each cell, length prefix adjusted), the iterator API of ListlikeIterator / MapIterator / VectorIterator / UdtIterator targets (nth(k) for k in 0..=len+2 after 0..3 next() calls, size_hint, last, count, skip, step_by on a fresh iterator each) whenever typed targets are on, every offset of the rows content x boundary 4-byte / 8-byte / 1-byte values (counts and lengths inside cell values, extreme scalars; typed targets on), damaged compressed streams (every cut, every byte x 4 values, announced length), bad class strings, class-string grammar holes (UDT keyspace / hex type name / hex field names / nested parameters / hex prefix / identifiers / vector dimension: 15 templates x every string of length 0..4 (thorough 0..5) over {hex digits, non-hex ASCII, '_', '.', 2-/3-/4-byte UTF-8 alphanumerics} + invalid UTF-8), nested fixed-size vectors (6 leaf types x depth 1..8 x dimension {0,1,2,255,65535,65536,2^31-1}, cells null/empty/short/long, typed targets), metadata of {1,100,10000,30000} columns x keyspace/table names of {1,255,4096,65535} bytes x global / per-column table spec in Rows and Prepared, type nesting 1e2..1e6 (binary) and 4..7000 (class strings). 2 deviations: field pairs (quick: same region or adjacent, reduced value alphabet; thorough: same region at any distance or any two fields <= 12 apart, full alphabet) and field mutation + body truncation right after the field / right before the end; thorough also repeats the single deviations under 6 feature sets with typed targets. Two-column rows over ordered pairs of the type alphabet (quick: a third; thorough: all). Stream level: sequences of 1-3 well-formed frames back to back in one reader, first-frame body sizes {0,1,9,8191,8192,32767,32768,32769,40000,49152,65535,65536,65537,100000,131073,300001}, reader handing out {everything, 1, 7, 4096, 65537} bytes per poll with Pending in between, decoded by repeated read_response_frame: every (params, opcode, body) equals what was encoded, in order, the reader is exhausted exactly at the end and one more read is an error; plus one frame of 256 MiB + 16 bytes followed by small frames, in a child of its own without allocation cap (~0.6 GB for about a second): both come back exactly or the big one is refused - never a truncated body followed by frames nobody sent. Compression round trip: AUTH_SUCCESS frames whose token is all-zero / 2-byte / 7-byte / 40-byte-row / 1000-byte-block repetition or random, sizes 2^e-1, 2^e, 2^e+1 up to 4 MiB (thorough 16 MiB), compressed with LZ4 and Snappy by the driver's own compress_append and by cqlref's encoders: decompress(), the frame path and the decoded token must reproduce the content exactly (valid frames are decoded, not refused). Sampled (labelled): random bodies behind valid headers. Oracle per case in a child process: no panic/abort/signal/stack overflow (2 MiB thread)/more than 4 s of CPU time for one decode; largest single request and peak live bytes above the pre-decode level <= 64 KiB + 256 x frame length (x decompressed body length once a compressed body has been inflated) by a counting allocator that reports before the request is served and refuses > 64 MiB. distinct_nontrivial = round trips that matched + deviations rejected with a clean error.");
+    r.set_rule("E-ENUM with deviation bounding. 0 deviations: corpus of well-formed frames of every response kind (ERROR all 19 codes with extras, READY, AUTHENTICATE, SUPPORTED, RESULT void/rows/set_keyspace/prepared/schema_change, EVENT all kinds, AUTH_CHALLENGE/SUCCESS; rows over a depth-2 type alphabet incl. class-string forms and vectors, every metadata flag combination, 0..2 rows, cached-metadata twin for no_metadata) x extension subsets x {none, LZ4, Snappy} x {matches, literal-only} x feature combinations (quick: 4; thorough: all 16), decoded through read_response_frame -> parse_response_body_extensions -> ResponseV2::deserialize (+ legacy Response for events) -> deserialize_metadata -> rows as raw cells, as Row/CqlValue and as every typed tuple of the target alphabet that passes type_check; decoded text must equal the text derived from the cqlref model. 1 deviation: every stream truncation, every body truncation with consistent header, every length/count/flag/id field x {0,1,-1,-2,+1,-1,0x7fff,0xffff,i32::MAX,i32::MIN, bit flips, all type ids / result kinds / opcodes / error codes}, header fields, every consistently shortened cell value (each prefix of each cell, length prefix adjusted), the iterator API of ListlikeIterator / MapIterator / VectorIterator / UdtIterator targets (nth(k) for k in 0..=len+2 after 0..3 next() calls, size_hint, last, count, skip, step_by on a fresh iterator each) whenever typed targets are on, every offset of the rows content x boundary 4-byte / 8-byte / 1-byte values (counts and lengths inside cell values, extreme scalars; typed targets on), damaged compressed streams (every cut, every byte x 4 values, announced length), bad class strings, class-string grammar holes (UDT keyspace / hex type name / hex field names / nested parameters / hex prefix / identifiers / vector dimension: 15 templates x every string of length 0..4 (thorough 0..6) over {hex digits, non-hex ASCII, '_', '.', 2-/3-/4-byte UTF-8 alphanumerics} + invalid UTF-8), nested fixed-size vectors (6 leaf types x depth 1..8 x dimension {0,1,2,255,65535,65536,2^31-1}, cells null/empty/short/long, typed targets), metadata of {1,100,10000,30000} columns x keyspace/table names of {1,255,4096,65535} bytes x global / per-column table spec in Rows and Prepared, type nesting 1e2..1e6 (binary) and 4..7000 (class strings). 2 deviations: field pairs (quick: same region or adjacent, reduced value alphabet; thorough: every pair of fields of the frame, full alphabet) and field mutation + body truncation (quick: right after the field / right before the end; thorough: every cut after the field); thorough also repeats the single deviations under 6 feature sets with typed targets. Two-column rows over ordered pairs of the type alphabet (quick: a third; thorough: all). Stream level: sequences of 1-3 well-formed frames back to back in one reader, first-frame body sizes {0,1,9,8191,8192,32767,32768,32769,40000,49152,65535,65536,65537,100000,131073,300001}, reader handing out {everything, 1, 7, 4096, 65537} bytes per poll with Pending in between, decoded by repeated read_response_frame: every (params, opcode, body) equals what was encoded, in order, the reader is exhausted exactly at the end and one more read is an error; plus one frame of 256 MiB + 16 bytes followed by small frames, in a child of its own without allocation cap (~0.6 GB for about a second): both come back exactly or the big one is refused - never a truncated body followed by frames nobody sent. Compression round trip: AUTH_SUCCESS frames whose token is all-zero / 2-byte / 7-byte / 40-byte-row / 1000-byte-block repetition or random, sizes 2^e-1, 2^e, 2^e+1 up to 4 MiB (thorough 16 MiB), compressed with LZ4 and Snappy by the driver's own compress_append and by cqlref's encoders: decompress(), the frame path and the decoded token must reproduce the content exactly (valid frames are decoded, not refused). Sampled (labelled): random bodies behind valid headers. Oracle per case in a child process: no panic/abort/signal/stack overflow (2 MiB thread)/more than 4 s of CPU time for one decode; largest single request and peak live bytes above the pre-decode level <= 64 KiB + 256 x frame length (x decompressed body length once a compressed body has been inflated) by a counting allocator that reports before the request is served and refuses > 64 MiB. distinct_nontrivial = round trips that matched + deviations rejected with a clean error.");
     r.set_exhaustive(true);
     r.assume("row iteration is consumer-driven: the harness pulls at most 4096 rows per iterator and stops at the first error; every step is checked");
     r.assume("the decode runs on a 2 MiB thread (tokio worker default), RLIMIT_AS 2 GiB protects the checker only; verdicts come from the counting allocator");
